@@ -40,7 +40,7 @@ CipherReq(i) == [pt |-> 0, netfn |-> 6, cmd |-> 84, data |-> <<14, 0, 128 + i>>]
 
 FailOnceC16(i) == [rule |-> "fail-once", when |-> << IsCipherReq, Eq(Slice(Req, 24, 25), B(<<128 + i>>)) >>, ifstate |-> [name |-> "n", eq |-> 0],
                    effects |-> << [k |-> "inc", name |-> "n"] >>,
-                   datagrams |-> << Dg(NullWrapper(0, MsgRsp(7, 84, 193, <<>>)), [kind |-> "chunk-refused"]) >>]
+                   datagrams |-> << Dg(NullWrapper(0, MsgRspE(EchoN, 7, 0, 84, 193, <<>>)), [kind |-> "chunk-refused"]) >>]
 \* ------------------------------------------------------------------ C16 (a)
 Discovery(id, recs, tail, tailname) ==
   LET data == CS!DataOf(recs) \o tail
@@ -76,7 +76,7 @@ DiscoverySet ==
       refused == { LET recs == ListOf(n * 50 + 3, n)
                        data == CS!DataOf(recs)
                        rules == << [rule |-> "refused", when |-> << IsCipherReq, Eq(Slice(Req, 24, 25), B(<<128 + i>>)) >>,
-                                    datagrams |-> << Dg(NullWrapper(0, MsgRsp(7, 84, cc, IF body THEN <<14>> ELSE <<>>)), [kind |-> "chunk-refused"]) >>] >> \o CipherRules(data)
+                                    datagrams |-> << Dg(NullWrapper(0, MsgRspE(EchoN, 7, 0, 84, cc, IF body THEN <<14>> ELSE <<>>)), [kind |-> "chunk-refused"]) >>] >> \o CipherRules(data)
                    IN [id |-> "ref-" \o ToString(n) \o "-" \o ToString(i) \o "-" \o ToString(cc) \o (IF body THEN "b" ELSE ""),
                        info |-> [family |-> "discovery-refused", insess |-> FALSE, bytes |-> Len(data), chunks |-> i, tail |-> "none"],
                        steps |-> << [k |-> "rules", rules |-> rules],
@@ -108,7 +108,7 @@ Unanswered ==
     : m \in {1, 2, 4}, i \in 1..4 }
 \* a BMC that answers every request with a full chunk of well-formed records: the enumeration must still end (C05)
 EndlessRule == [rule |-> "endless", when |-> << IsCipherReq >>,
-                datagrams |-> << Dg(NullWrapper(0, MsgRsp(7, 84, 0, <<14>> \o CS!DataOf(Pair16))), [kind |-> "chunk", i |-> 0]) >>]
+                datagrams |-> << Dg(NullWrapper(0, MsgRspE(EchoN, 7, 0, 84, 0, <<14>> \o CS!DataOf(Pair16))), [kind |-> "chunk", i |-> 0]) >>]
 EndlessSet ==
   { [id |-> "endless-discovery", info |-> [family |-> "endless", insess |-> FALSE],
      steps |-> << [k |-> "rules", rules |-> << EndlessRule >>],
@@ -180,7 +180,7 @@ SelectionTwice(id, prefs1, adv1, prefs2, adv2) ==
 \* same connection: the second attempt must see exactly what the BMC advertises, nothing of the abandoned first one
 FailOnce(i) == [rule |-> "fail-once", when |-> << IsCipherReq, Eq(Slice(Req, 24, 25), B(<<128 + i>>)) >>, ifstate |-> [name |-> "n", eq |-> 0],
                 effects |-> << [k |-> "inc", name |-> "n"] >>,
-                datagrams |-> << Dg(NullWrapper(0, MsgRsp(7, 84, 193, <<>>)), [kind |-> "chunk-refused"]) >>]
+                datagrams |-> << Dg(NullWrapper(0, MsgRspE(EchoN, 7, 0, 84, 193, <<>>)), [kind |-> "chunk-refused"]) >>]
 AfterFailed(id, prefs, adv, failAt) ==
   LET b == Selection(id, prefs, adv)
       rulesStep == [k |-> "rules", rules |-> << FailOnce(failAt) >> \o b.steps[1].rules, state |-> [n |-> 0]]
